@@ -175,6 +175,19 @@ CLAIMED["C15"] = {
                           "proxies; character helpers proven equal to closed forms first (lemmas)",
 }
 
+CLAIMED["C19"] = {
+    "text": "bounded symbolic checking of the real RtlReader._process_buffer / _check_preamble / _calc_noise / _check_msg on "
+            "an instance without hardware: for a finite set of CONCRETE frame contents (the repo's test frames and seeded "
+            "DF17 frames with correct parity, DF20/21, DF4/5/11; 1-2 frames per buffer, both sample-offset parities) and "
+            "symbolic analogue values (4 independent pulse levels in [0.3, 1.4], 4 independent noise levels within "
+            "[N/2, N], 10 dB below the weakest pulse, seeded assignment to samples) the returned list is exactly the frame "
+            "list; separately, for all 112 symbolic bits, _check_msg admits a DF17 frame only with zero remainder. "
+            "Frame bits are not symbolic (2^56 slicer paths).",
+    "design_ref": "DESIGN.md section 5 C19", "note": NOTE,
+    "technique": T_SYMX + "; linear real arithmetic over symbolic sample amplitudes, numpy reshape/mean and min/max over "
+                          "symbolic sequences modelled exactly",
+}
+
 NOT_APPLICABLE = {
     "C20": "transcendental float numerics (numpy **, exp, sqrt, arccos on doubles): no SMT theory reaches the stated "
            "quantities; z3 nlsat answers unknown on the tas<->cas inverse identity; see DESIGN.md section 5 C20",
